@@ -281,6 +281,20 @@ func (p *Program) HasMethod(short, typeName, method string) bool {
 	return false
 }
 
+// FnOpt is Fn for helpers a refactoring may inline away: nil when the function does not exist.
+func (p *Program) FnOpt(short, name string) (fn *ssa.Function) {
+	defer func() {
+		if r := recover(); r != nil {
+			if _, ok := r.(anchorError); ok {
+				fn = nil
+				return
+			}
+			panic(r)
+		}
+	}()
+	return p.Fn(short, name)
+}
+
 // Fn resolves "Type.method" or "func" in package short to its SSA function.
 func (p *Program) Fn(short, name string) *ssa.Function {
 	if i := strings.Index(name, "."); i >= 0 {
